@@ -10,10 +10,12 @@ from props import _phase as P
 
 ID = 'C09'
 LEAN_MODULES = ['Proofs.C09']
-REQUIRED = ['C09.wrap_range', 'C09.wrap_periodic', 'C09.wrap_spec', 'C09.ft_shapes',
+REQUIRED = ['C09.wrap_range', 'C09.wrap_periodic', 'C09.wrap_spec', 'C09.ft_shapes', 'C09.ft_short_input_raises', 'C09.ft_some_iff',
             'C09.freq_is_scaled_gradient', 'C09.unwrap_wrap', 'C09.freq_is_gradient_of_unwrapped_output',
-            'C09.ft_scale_invariant', 'C09.hilbert_oracle_scale', 'C09.nht_oracle_scale', 'C09.quad_oracle_scale',
-            'C09.amplitudeNormalise_scale_free', 'C09.amplitudeNormalise_sign', 'C09.quad_unit_modulus',
+            'C09.ft_hilbert_scale', 'C09.ft_nht_scale', 'C09.ft_nht_scale_any', 'C09.ft_quad_scale', 'C09.ft_quad_scale_needs_envelope',
+            'C09.ft_nht_nonoscillatory', 'C09.ft_quad_nonoscillatory', 'C09.ft_nht_amplitude_is_envelope', 'C09.ft_hilbert_amplitude_finite',
+            'C09.ft_nht_no_envelope_phase', 'C09.amplitudeNormalise_no_envelope',
+            'C09.amplitudeNormalise_scale_free', 'C09.amplitudeNormalise_sign', 'C09.amplitudeNormalise_sign_needs_posEnv', 'C09.quad_unit_modulus',
             'C09.roundtrip_interior', 'C09.roundtrip_edges', 'C09.roundtrip_locally_const', 'C09.roundtrip_const']
 TRUSTED = [
     'PARTIAL: sinusoid recovery accuracy (frequency, amplitude, phase within tolerance) is a statement about the FFT '
@@ -31,16 +33,39 @@ TRUSTED = [
     'np.gradient, np.cumsum, % and np.unwrap are modelled exactly (Phase.gradient, cumsumFrom, wrap, unwrap) and compared '
     'with numpy on every run (streams conversions, wrap_phase, np_unwrap_model)',
     'bit-exact invariance under 2^k rescaling is a float64 fact: instance check only (the theorem is the exact-arithmetic law)',
-    'the scale-invariance clauses for nht/quad are evaluated on oscillatory columns only: a column without extrema is not an IMF, '
-    'amplitude_normalise has no envelope to divide by and returns it unchanged (C09.amplitudeNormalise_no_envelope); such inputs '
-    'are still run for shape / range / derivative consistency and tagged non-oscillatory',
+    'scale invariance (C09.ft_hilbert_scale, ft_nht_scale, ft_nht_scale_any, ft_quad_scale): the only library hypotheses left are the '
+    'single-function contracts hilbert_linear, angle_scale_invariant (angle and abs), envelope_homogeneous (combined/pchip at '
+    'iteration 0 and upper/splrep, same None-ness), all for c > 0 (explicit hypothesis 0 < c) and all evaluated on the real functions '
+    'every run (stream library_assumptions).  hilbert and nht are checked on every column; for quad the clauses are evaluated on '
+    'oscillatory columns only: without a combined envelope amplitude_normalise returns the column unchanged '
+    '(C09.amplitudeNormalise_no_envelope), the clipped raw samples enter the quadrature signal and the law is FALSE there '
+    '(C09.ft_quad_scale_needs_envelope; real code: quad phase of the ramp [0, .25, .5, .75] moves by 1.047 rad under x2) - such '
+    'inputs are still run for shape / range / derivative consistency and tagged scale-clauses-skipped(quad without envelope)',
+    'non-oscillatory columns: where interp_envelope(mode=upper) returns None (fewer peaks than the envelope needs: ramp, constant, '
+    'one peak between two troughs) frequency_transform(nht|quad) stores NaN at every amplitude sample and raises nothing, e.g. '
+    'frequency_transform(np.linspace(0, 1, 50), 100, "nht").  The model says the same (amplitude samples are Option Rat, none = NaN; '
+    'C09.ft_nht_nonoscillatory, ft_quad_nonoscillatory, ft_nht_amplitude_is_envelope, ft_hilbert_amplitude_finite); the FT op '
+    'receives the envelope slot `none` and the correspondence compares sample by sample, NaN in the implementation <=> none in the '
+    'model; the instance check demands an all-NaN column exactly when the upper envelope is None (kinds amplitude-non-finite, '
+    'amplitude-without-envelope)',
+    'PosEnv (every entry of every combined envelope > 0), hypothesis of C09.amplitudeNormalise_sign, is validated on every '
+    'amplitude_normalise case on the very envelope table handed to the model (kind oracle:pos-env for pchip / mono_pchip, where it is '
+    'a property of the monotone interpolant through the positive |peaks|).  For interp_method=splrep it is NOT true in general (a few '
+    'per cent of columns: the cubic spline undershoots to <= 0, and amplitude_normalise then does flip signs: corpus noise seed 10, n 64): '
+    'there the sign / finiteness / scale clauses are applied only to the cases where the validator finds PosEnv true, the others are '
+    'tagged pos-env:fails(sign/scale clauses skipped).  frequency_transform always uses pchip',
+    'fewer than 2 samples: the model returns none (C09.ft_short_input_raises; Phase.frequencyTransform?), the implementation raises '
+    'ValueError (np.gradient) or IndexError (quadrature_transform); compared as error kinds',
     'a 1-D input of n samples is returned as (n, 1) arrays (documented ensure_2d behaviour); "the input\'s shape" is read as '
     'the input\'s 2-D shape',
 ]
 ASSUMPTIONS = [
     'hilbert_linear: scipy.signal.hilbert(a*x + b*y) = a*hilbert(x) + b*hilbert(y) (1e-9 rel.; bit-exact for a = 2^k)',
     'angle_scale_invariant: np.angle(c*z) = np.angle(z), np.abs(c*z) = c*np.abs(z) for c > 0',
-    'envelope_homogeneous: interp_envelope(c*x) = c*interp_envelope(x) for c > 0 (upper/splrep and combined/pchip), same None-ness',
+    'envelope_homogeneous: interp_envelope(c*x) = c*interp_envelope(x) for c > 0 (upper/splrep, combined/pchip, combined/splrep), same None-ness, '
+    'also on non-oscillatory columns',
+    'pos_env: every entry of interp_envelope(mode=combined, interp_method=pchip|mono_pchip) is > 0 on every iterate of amplitude_normalise '
+    '(kind oracle:pos-env); not assumed for splrep',
     'unwrap_model: Phase.unwrap reproduces np.unwrap (period 2pi) away from exact ties',
     'columns are processed independently along axis 0 (every column is compared with the model separately)',
 ]
@@ -49,10 +74,10 @@ RULE = ('wrap_phase: dyadic / random / huge / tiny-negative / exact-multiple inp
         'freq_phase_roundtrip: constant / piecewise-constant / smooth random / chirp profiles; '
         'phase_from_complex_signal: 4 phase-jump conventions x wrapped/unwrapped x smoothing on/off on scipy analytic signals; '
         'frequency_transform: sine, chirp, AM-FM, two-tone, white and smoothed noise, sifted IMFs, degenerate (constant, ramp, '
-        'zeros, n<2) x {hilbert,nht,quad} x 1-3 columns x sample rates x 2^k and random positive rescaling; '
+        'zeros, one peak between two troughs, ramp next to a sine, n<2) x {hilbert,nht,quad} x 1-3 columns x sample rates x 2^k and random positive rescaling; '
         'sinusoid_recovery: sr in 7 values, n 512-4096, f log-uniform from 4 cycles per record to sr/12, amplitude log-uniform '
         'over 3 decades, phase uniform in [0,2pi), 1-3 columns x 3 methods; quadrature, amplitude_normalise: same families with '
-        'envelope tables from the real interp_envelope. Non-trivial: the case exercises a non-default branch (negative or '
+        'envelope tables from the real interp_envelope (amplitude_normalise also x interp_method pchip / mono_pchip / splrep). Non-trivial: the case exercises a non-default branch (negative or '
         'out-of-period phase, more than one column, nht/quad method, non-constant profile, at least one normalisation pass); '
         'distinct by content hash.')
 
@@ -549,6 +574,20 @@ class FreqTransform(Stream):
         for m in P.METHODS:   # integer-typed input (witness of the integer-truncation defect of nht/quad on the pinned tree)
             cs.append({'spec': {'n': 1024, 'sr': 256.0, 'dtype': 'int', 'cols': [{'kind': 'sine', 'f': 10.0, 'a': 1000.0, 'ph': 0.3}]},
                        'method': m, 'k': 2, 'c': 3.0, 'vector': True})
+        for m in P.METHODS:
+            # non-oscillatory columns (C09.ft_nht_nonoscillatory / ft_quad_nonoscillatory): interp_envelope(mode='upper') is None and
+            # nht / quad silently return an all-NaN amplitude: frequency_transform(np.linspace(0, 1, 50), 100, 'nht')
+            cs.append({'spec': {'n': 50, 'sr': 100.0, 'cols': [{'kind': 'data', 'x': [float(v) for v in np.linspace(0, 1, 50)]}]},
+                       'method': m, 'k': 2, 'c': 4.0, 'vector': True})
+            # one peak between two troughs: the combined envelope exists (the column is normalised), the upper one does not
+            cs.append({'spec': {'n': 40, 'sr': 40.0, 'cols': [{'kind': 'data', 'x': [math.cos(2 * math.pi * (i - 20) / 30.0) for i in range(40)]}]},
+                       'method': m, 'k': 3, 'c': 0.37, 'vector': False})
+            # ... next to a proper oscillation: NaN in one column only
+            cs.append({'spec': {'n': 64, 'sr': 64.0, 'cols': [{'kind': 'data', 'x': [i / 64 for i in range(64)]},
+                                                               {'kind': 'sine', 'f': 6.0, 'a': 2.0, 'ph': 0.2}]},
+                       'method': m, 'k': -2, 'c': 5.5, 'vector': False})
+            # witness of C09.ft_quad_scale_needs_envelope: quad phase of the ramp changes by 1.047 rad under x2 (no envelope to divide by)
+            cs.append({'spec': {'n': 4, 'sr': 1.0, 'cols': [{'kind': 'data', 'x': [0.0, 0.25, 0.5, 0.75]}]}, 'method': m, 'k': 1, 'c': 2.0, 'vector': True})
         cs.append({'spec': {'n': 64, 'sr': 10.0, 'cols': [{'kind': 'sine', 'f': 0.5, 'a': 1.0, 'ph': 0.0}]}, 'method': 'direct_quad', 'k': 1, 'c': 2.0, 'vector': True})
         cs.append({'spec': {'n': 64, 'sr': 10.0, 'cols': [{'kind': 'sine', 'f': 0.5, 'a': 1.0, 'ph': 0.0}]}, 'method': 'hilbrt', 'k': 1, 'c': 2.0, 'vector': True})
         return cs
@@ -598,7 +637,7 @@ class FreqTransform(Stream):
         ip, iff, ia = emd.spectra.frequency_transform(x, sr, m, **kw)
         out = {'shapes': [list(np.shape(ip)), list(np.shape(iff)), list(np.shape(ia))],
                'ip': [P.tolist(c) for c in P.cols(ip)], 'if': [P.tolist(c) for c in P.cols(iff)], 'ia': [P.tolist(c) for c in P.cols(ia)],
-               'dtypes': [str(np.asarray(a).dtype) for a in (ip, iff, ia)]}
+               'dtypes': [str(np.asarray(a).dtype) for a in (ip, iff, ia)], 'ia_inf': bool(np.isinf(ia).any())}
         s = 2.0 ** case['k']
         ip2, if2, ia2 = emd.spectra.frequency_transform(x0 * s, sr, m, **kw)
         out['pow2'] = {'ip_eq': bool(np.array_equal(ip2, ip, equal_nan=True)), 'if_eq': bool(np.array_equal(if2, iff, equal_nan=True)),
@@ -633,7 +672,8 @@ class FreqTransform(Stream):
         ops = []
         for j in range(x.shape[1]):
             a = A[:, j]
-            a = [0.0] * n if not np.all(np.isfinite(a)) else list(a)
+            # amplitude table slot: 'none' when interp_envelope(mode='upper') returned None (the model then answers NaN samples)
+            a = None if np.all(np.isnan(a)) else list(a)
             ops.append(proto.op('FT', {'halfpi': P.HALF_PI, 'twopi': TP, 'sr': case['spec']['sr']}, [list(x[:, j]), list(U[:, j]), a]))
         return ops
 
@@ -658,7 +698,8 @@ class FreqTransform(Stream):
             if not r.ok:
                 return 'model answered %s' % r.raw[:80]
             su = max(1.0, float(np.max(np.abs(U[:, j]))))
-            mip, mif, mia = (P.model_vec(v) for v in r.vecs[:3])
+            mip, mif = (P.model_vec(v) for v in r.vecs[:2])
+            mia = np.array([np.nan if q is None else float(q) for q in (r.vecs[2] or [])], dtype=float)    # model: 'nan' = none
             ip, iff, ia = (np.array([np.nan if v is None else v for v in out[k][j]]) for k in ('ip', 'if', 'ia'))
             d = P.circ(ip - mip)
             if not np.all(d <= 1e-9 * su):
@@ -668,12 +709,14 @@ class FreqTransform(Stream):
             if not np.all(d <= 1e-9 * su * max(1.0, sr)):
                 i = int(np.argmax(~(d <= 1e-9 * su * max(1.0, sr))))
                 return 'frequency column %d sample %d: implementation %r, model %r' % (j, i, float(iff[i]), float(mif[i]))
-            if np.all(np.isfinite(A[:, j])):
-                if not np.array_equal(ia, mia):
-                    i = int(np.argmax(ia != mia))
-                    return 'amplitude column %d sample %d: implementation %r, oracle table %r' % (j, i, float(ia[i]), float(mia[i]))
-            elif not np.array_equal(np.isnan(ia), np.isnan(A[:, j])):
-                return 'amplitude column %d: NaN pattern differs from the envelope oracle' % j
+            # amplitude: exact, sample by sample; NaN in the implementation <=> `none` in the model (all n samples of a column
+            # without upper envelope, C09.ft_nht_nonoscillatory; nowhere else)
+            if len(ia) != len(mia) or not np.array_equal(ia, mia, equal_nan=True):
+                bad = ~((ia == mia) | (np.isnan(ia) & np.isnan(mia))) if len(ia) == len(mia) else np.ones(1, bool)
+                i = int(np.argmax(bad))
+                return 'amplitude column %d sample %d: implementation %r, model %r' % (j, i, float(ia[i]), float(mia[i]))
+        if out['ia_inf']:
+            return 'amplitude contains infinite samples (the model knows finite values and NaN only)'
         return None
 
     def holds(self, case, out):
@@ -697,10 +740,14 @@ class FreqTransform(Stream):
         if not (np.all(np.isfinite(ip)) and np.all(np.isfinite(iff))):
             fs.append(Failure('non-finite-output', 'phase or frequency contains NaN/inf'))
             return fs
-        for j in range(ncol):          # amplitude: finite, except an all-NaN column when the IMF has no upper envelope (nht/quad)
+        no_upper = self._no_upper(case)
+        for j in range(ncol):          # amplitude: finite, except an all-NaN column exactly when the IMF has no upper envelope (nht/quad)
             bad = ~np.isfinite(ia[:, j])
-            if bad.any() and (case['method'] == 'hilbert' or not bad.all()):
+            nan_expected = case['method'] != 'hilbert' and no_upper[j]
+            if bad.any() and not (nan_expected and bad.all()):
                 fs.append(Failure('amplitude-non-finite', 'column %d: %d non-finite amplitude samples' % (j, int(bad.sum()))))
+            elif nan_expected and not bad.all():
+                fs.append(Failure('amplitude-without-envelope', 'column %d: interp_envelope(mode=\'upper\') is None but the amplitude is not NaN' % j))
         if not np.all((ip >= 0) & (ip <= TP)):
             i = np.argwhere(~((ip >= 0) & (ip <= TP)))[0]
             fs.append(Failure('phase-out-of-range', 'IP[%d,%d] = %r not in [0, 2pi)' % (i[0], i[1], float(ip[i[0], i[1]]))))
@@ -723,9 +770,10 @@ class FreqTransform(Stream):
                               'sample %d column %d: IF = %r but sr/(2pi)*gradient(unwrap(IP)) = %r'
                               % (i[0], i[1], float(iff[i[0], i[1]]), float(g[i[0], i[1]] * sr / (2.0 * np.pi)))))
         p2, rd = out['pow2'], out['rand']
-        if case['method'] != 'hilbert' and not self._oscillatory(case):
+        if case['method'] == 'quad' and not self._oscillatory(case):
             # a column without extrema is not an IMF: amplitude_normalise has no envelope to divide by and returns it
-            # unchanged (C09.amplitudeNormalise_no_envelope), so the nht/quad scale clauses do not apply
+            # unchanged (C09.amplitudeNormalise_no_envelope); the clipped raw samples enter the quadrature signal and the
+            # scale law is false there (C09.ft_quad_scale_needs_envelope).  nht keeps the law (C09.ft_nht_scale_any).
             return fs
         if not p2['ip_eq']:
             fs.append(Failure('pow2-scale-changes-phase', 'x * 2^%d: phase differs by up to %g rad' % (case['k'], p2['ip_diff'])))
@@ -747,6 +795,12 @@ class FreqTransform(Stream):
         x = P.synth(case['spec'])
         return all(emd.sift.interp_envelope(x[:, j], mode='combined', interp_method='pchip') is not None for j in range(x.shape[1]))
 
+    @staticmethod
+    def _no_upper(case):
+        import emd
+        x = P.synth(case['spec'])
+        return [emd.sift.interp_envelope(x[:, j], mode='upper') is None for j in range(x.shape[1])]
+
     def tags(self, case, out):
         spec = case['spec']
         t = ['method=' + (case['method'] if case['method'] in P.METHODS else 'invalid'), 'cols=%d' % len(spec['cols']),
@@ -763,6 +817,10 @@ class FreqTransform(Stream):
             t.append('dtype=' + spec.get('dtype', 'float'))
             if not self._oscillatory(case):
                 t.append('non-oscillatory(not an IMF)')
+                if case['method'] == 'quad':
+                    t.append('scale-clauses-skipped(quad without envelope)')
+            if any(self._no_upper(case)):
+                t.append('no-upper-envelope')
         else:
             t.append('raises=' + out['error'])
         return t
@@ -1102,7 +1160,21 @@ class Normalise(Stream):
                 {'spec': {'n': 128, 'sr': 64.0, 'cols': [{'kind': 'sine', 'f': 5.0, 'a': 0.01, 'ph': 1.0}]}, 'clip': True, 'max_iters': 0, 'k': 2, 'c': 0.2},
                 # integer-typed input: X / env used to be truncated back to integers (fixed: float copy)
                 {'spec': {'n': 128, 'sr': 64.0, 'dtype': 'int', 'cols': [{'kind': 'sine', 'f': 5.0, 'a': 1000.0, 'ph': 1.0}]},
-                 'clip': False, 'max_iters': 3, 'k': 2, 'c': 3.0}]
+                 'clip': False, 'max_iters': 3, 'k': 2, 'c': 3.0},
+                # hypothesis PosEnv of C09.amplitudeNormalise_sign: always met by the pchip interpolants (validated each run, kind
+                # oracle:pos-env); the splrep combined envelope of the last record dips to -0.023 and the output changes sign there
+                # (the hypothesis is necessary; sign / scale clauses are not applied where the validator finds it false)
+                {'spec': {'n': 128, 'sr': 64.0, 'cols': [{'kind': 'sine', 'f': 5.0, 'a': 2.0, 'ph': 1.0}]}, 'clip': False, 'max_iters': 3,
+                 'k': 2, 'c': 3.0, 'interp': 'mono_pchip'},
+                {'spec': {'n': 128, 'sr': 64.0, 'cols': [{'kind': 'sine', 'f': 5.0, 'a': 2.0, 'ph': 1.0}]}, 'clip': True, 'max_iters': 3,
+                 'k': 2, 'c': 3.0, 'interp': 'splrep'},
+                {'spec': {'n': 64, 'sr': 256.0, 'cols': [{'kind': 'noise', 'seed': 10, 'a': 1.0, 'smooth': 1}]}, 'clip': False,
+                 'max_iters': 3, 'k': 1, 'c': 2.0, 'interp': 'splrep'},
+                # integer-quantised sine, splrep, random c: rounding breaks the exact ties of the flat-topped peaks of the second
+                # iterate (13 vs 12 extrema), the spline moves by 6e-6 everywhere (past failure of the random-c clause; see holds)
+                {'spec': {'n': 400, 'sr': 256.0, 'dtype': 'int', 'cols': [{'kind': 'sine', 'f': 3.176972665317497, 'a': 1003.8749988139488,
+                                                                          'ph': 2.1518293180553445}]},
+                 'clip': False, 'max_iters': 6, 'k': 16, 'c': 0.284331240362048, 'interp': 'splrep'}]
 
     def generate(self, rng, tier):
         n_cases = 600 if tier == 'thorough' else 90
@@ -1112,13 +1184,20 @@ class Normalise(Stream):
             kinds = rng.choice([['sine'], ['chirp', 'amfm'], ['amfm'], ['two'], ['noise']])
             yield {'spec': _maybe_int(rng, {'n': n, 'sr': sr, 'cols': [_rand_col(rng, n, sr, kinds) for _ in range(rng.choice([1, 2, 3]))]}),
                    'clip': rng.random() < 0.4, 'max_iters': rng.choice([3, 3, 3, 1, 2, 6]),
-                   'k': rng.choice([-12, -2, 1, 5, 16]), 'c': 10 ** rng.uniform(-3, 3)}
+                   'k': rng.choice([-12, -2, 1, 5, 16]), 'c': 10 ** rng.uniform(-3, 3),
+                   'interp': rng.choice(['pchip', 'pchip', 'pchip', 'mono_pchip', 'splrep'])}
+
+    @staticmethod
+    def _interp(case):
+        return case.get('interp', 'pchip')
 
     def impl(self, case):
         import emd
         x = P.typed(case['spec'])
         x0 = x.copy()
         kw = {'clip': case['clip'], 'max_iters': case['max_iters']}
+        if 'interp' in case:
+            kw['interp_method'] = case['interp']
         y = emd.utils.amplitude_normalise(x, **kw)
         y2 = emd.utils.amplitude_normalise(x0 * 2.0 ** case['k'], **kw)
         y3 = emd.utils.amplitude_normalise(x0 * case['c'], **kw)
@@ -1128,10 +1207,11 @@ class Normalise(Stream):
                 'rand_diff': float(np.max(np.abs(y3 - y))) if y.size else 0.0,
                 'rand_scaled_diff': float(np.max(np.abs(y3 - case['c'] * y) / max(1e-300, case['c']))) if y.size else 0.0}
 
-    def _table(self, col, max_iters):
+    def _table(self, col, max_iters, interp='pchip'):
+        """the envelopes amplitude_normalise meets on this column: E 0 x, E 1 (x / E 0 x), ... (None: a non-finite iterate)"""
         import emd
         x = np.array(col, dtype=float)
-        envs = [emd.sift.interp_envelope(x, mode='combined', interp_method='pchip')]
+        envs = [emd.sift.interp_envelope(x, mode='combined', interp_method=interp)]
         it = 0
         while envs[-1] is not None and it < max_iters:
             it += 1
@@ -1139,8 +1219,18 @@ class Normalise(Stream):
                 x = x / envs[-1]
             if not np.all(np.isfinite(x)):
                 return None
-            envs.append(emd.sift.interp_envelope(x, mode='combined', interp_method='pchip'))
+            envs.append(emd.sift.interp_envelope(x, mode='combined', interp_method=interp))
         return envs
+
+    def _pos_env(self, case):
+        """Validator of `PosEnv E` (hypothesis of C09.amplitudeNormalise_sign) for the oracle E of this very case: every entry of
+        every envelope the normalisation meets is > 0.  Per column; the model's E is exactly this table."""
+        x = P.synth(case['spec'])
+        res = []
+        for j in range(x.shape[1]):
+            t = self._table(x[:, j], case['max_iters'], self._interp(case))
+            res.append(t is not None and all(e is None or bool(np.all(e > 0)) for e in t))
+        return res
 
     def ops(self, case, out):
         if _err(out):
@@ -1148,7 +1238,7 @@ class Normalise(Stream):
         x = P.synth(case['spec'])
         ops = []
         for j in range(x.shape[1]):
-            t = self._table(x[:, j], case['max_iters'])
+            t = self._table(x[:, j], case['max_iters'], self._interp(case))
             if t is None:
                 ops.append('# non-finite iterate')
                 continue
@@ -1181,7 +1271,7 @@ class Normalise(Stream):
     def _has_env(self, case):
         import emd
         x = P.synth(case['spec'])
-        return [emd.sift.interp_envelope(x[:, j], mode='combined', interp_method='pchip') is not None for j in range(x.shape[1])]
+        return [emd.sift.interp_envelope(x[:, j], mode='combined', interp_method=self._interp(case)) is not None for j in range(x.shape[1])]
 
     def holds(self, case, out):
         if _err(out):
@@ -1190,6 +1280,16 @@ class Normalise(Stream):
         fs = []
         if out['shape'] != list(x.shape):
             return [Failure('shape-mismatch', 'amplitude_normalise: %s for input %s' % (out['shape'], list(x.shape)))]
+        if not out['input_unchanged']:
+            fs.append(Failure('normalise-modifies-input', 'caller array changed'))
+        pos = self._pos_env(case)
+        if not all(pos):
+            # PosEnv is a theorem of the pchip interpolants (monotone between positive |peaks|) and must hold there; a cubic
+            # spline through the same knots may undershoot to <= 0: the sign / finiteness / scale clauses are then not applied
+            if self._interp(case) != 'splrep':
+                fs.append(Failure('oracle:pos-env', 'interp_envelope(mode=combined, interp_method=%s) has entries <= 0 (columns %s): hypothesis '
+                                  'PosEnv of C09.amplitudeNormalise_sign does not hold' % (self._interp(case), [j for j, v in enumerate(pos) if not v])))
+            return fs
         y = np.array([[np.nan if v is None else v for v in c] for c in out['y']]).T
         if not np.all(np.isfinite(y)):
             fs.append(Failure('non-finite-output', 'amplitude_normalise produced NaN/inf'))
@@ -1199,13 +1299,16 @@ class Normalise(Stream):
             fs.append(Failure('normalise-changes-sign', 'sample %d column %d: input %r output %r' % (i[0], i[1], float(x[i[0], i[1]]), float(y[i[0], i[1]]))))
         if case['clip'] and np.max(np.abs(y)) > 1:
             fs.append(Failure('normalise-not-clipped', 'max |y| = %r' % float(np.max(np.abs(y)))))
-        if not out['input_unchanged']:
-            fs.append(Failure('normalise-modifies-input', 'caller array changed'))
         has = self._has_env(case)
         if all(has) and case['max_iters'] >= 1:
             if not out['pow2_eq']:
                 fs.append(Failure('pow2-scale-changes-normalised', 'amplitude_normalise(x * 2^%d) differs from amplitude_normalise(x)' % case['k']))
-            if out['rand_diff'] > 1e-7:
+            # integer-quantised samples have exact ties at their flat-topped peaks; a rescaling that is not a power of two breaks
+            # them by rounding and the extrema set of the next iterate changes (extrema detection, C05).  The non-local cubic
+            # spline carries one flipped tie over the whole record (measured 6e-6), the local pchip does not: for splrep the
+            # random-c clause is evaluated on float records only (the bit-exact 2^k clause above always is)
+            tie_prone = self._interp(case) == 'splrep' and case['spec'].get('dtype') == 'int'
+            if out['rand_diff'] > 1e-7 and not tie_prone:
                 fs.append(Failure('scale-changes-normalised', 'amplitude_normalise(x * %r) differs by %g' % (case['c'], out['rand_diff'])))
         elif not any(has) or case['max_iters'] == 0:
             # nothing to normalise by: documented no-op (output scales with the input)
@@ -1215,11 +1318,14 @@ class Normalise(Stream):
 
     def tags(self, case, out):
         t = ['clip=%d' % case['clip'], 'max_iters=%d' % case['max_iters'], 'cols=%d' % len(case['spec']['cols']),
-             'dtype=' + case['spec'].get('dtype', 'float')]
+             'dtype=' + case['spec'].get('dtype', 'float'), 'interp=' + self._interp(case)]
         t += sorted(set('kind=' + c['kind'] for c in case['spec']['cols']))
         if not _err(out):
             has = self._has_env(case)
             t.append('envelope' if all(has) else 'no-envelope')
+            t.append('pos-env:validated' if all(self._pos_env(case)) else 'pos-env:fails(sign/scale clauses skipped)')
+            if self._interp(case) == 'splrep' and case['spec'].get('dtype') == 'int':
+                t.append('random-c-clause-skipped(splrep on integer ties)')
         return t
 
     def nontrivial(self, case, out):
@@ -1296,12 +1402,18 @@ class UnwrapModel(Stream):
 
 
 class Assumptions(Stream):
-    """Hypotheses of ft_scale_invariant / hilbert_oracle_scale / nht_oracle_scale on the real library."""
+    """Hypotheses hlin / hang / habs / hEc / hEu of ft_hilbert_scale, ft_nht_scale(_any), ft_quad_scale on the real library, c > 0."""
     name = 'library_assumptions'
 
     def corpus(self):
         return [{'spec': {'n': 128, 'sr': 64.0, 'cols': [{'kind': 'sine', 'f': 5.0, 'a': 1.0, 'ph': 0.0}, {'kind': 'noise', 'seed': 1, 'a': 2.0, 'smooth': 1}]},
-                 'a': 2.5, 'b': -0.75, 'k': 6, 'c': 3.7}]
+                 'a': 2.5, 'b': -0.75, 'k': 6, 'c': 3.7},
+                # non-oscillatory columns: None-ness of both envelopes is preserved, Hilbert / angle contracts hold as well
+                {'spec': {'n': 50, 'sr': 100.0, 'cols': [{'kind': 'data', 'x': [float(v) for v in np.linspace(0, 1, 50)]},
+                                                          {'kind': 'data', 'x': [math.cos(2 * math.pi * (i - 20) / 30.0) for i in range(50)]}]},
+                 'a': 1.5, 'b': 2.0, 'k': 3, 'c': 4.0},
+                {'spec': {'n': 4, 'sr': 1.0, 'cols': [{'kind': 'data', 'x': [0.0, 0.25, 0.5, 0.75]}, {'kind': 'data', 'x': [1.0, 1.0, 1.0, 1.0]}]},
+                 'a': -1.0, 'b': 0.5, 'k': 1, 'c': 2.0}]
 
     def generate(self, rng, tier):
         n_cases = 500 if tier == 'thorough' else 60
@@ -1326,7 +1438,8 @@ class Assumptions(Stream):
                'angle_pow2_exact': bool(np.array_equal(np.angle(s * hx), np.angle(hx))),
                'abs_scale': float(np.max(np.abs(np.abs(c * hx) - c * np.abs(hx)) / np.maximum(c * np.abs(hx), 1e-300))),
                'abs_pow2_exact': bool(np.array_equal(np.abs(s * hx), s * np.abs(hx)))}
-        for nm, kw in (('upper', dict(mode='upper')), ('combined', dict(mode='combined', interp_method='pchip'))):
+        for nm, kw in (('upper', dict(mode='upper')), ('combined', dict(mode='combined', interp_method='pchip')),
+                       ('combined_splrep', dict(mode='combined', interp_method='splrep'))):
             e1 = emd.sift.interp_envelope(x, **kw)
             e2 = emd.sift.interp_envelope(c * x, **kw)
             e3 = emd.sift.interp_envelope(s * x, **kw)
@@ -1343,16 +1456,25 @@ class Assumptions(Stream):
             return [Failure('assumption:raises:' + out['error'], out['msg'])]
         fs = []
         for key, tol in (('hilbert_linear', 1e-9), ('hilbert_real_part', 1e-9), ('angle_scale', 1e-9), ('abs_scale', 1e-9),
-                         ('env_upper', 1e-9), ('env_combined', 1e-9)):
+                         ('env_upper', 1e-9), ('env_combined', 1e-9), ('env_combined_splrep', 1e-9)):
             if not out[key] <= tol:
                 fs.append(Failure('assumption:' + key, '%s violated: relative deviation %g' % (key, out[key])))
-        for key in ('hilbert_pow2_exact', 'angle_pow2_exact', 'abs_pow2_exact', 'env_upper_pow2_exact', 'env_combined_pow2_exact'):
+        for key in ('hilbert_pow2_exact', 'angle_pow2_exact', 'abs_pow2_exact', 'env_upper_pow2_exact', 'env_combined_pow2_exact',
+                    'env_combined_splrep_pow2_exact'):
             if not out[key]:
                 fs.append(Failure('assumption:' + key, '%s: not bit-exact under x * 2^%d' % (key, case['k'])))
         return fs
 
     def tags(self, case, out):
-        return sorted(set('kind=' + c['kind'] for c in case['spec']['cols']))
+        t = sorted(set('kind=' + c['kind'] for c in case['spec']['cols']))
+        if not _err(out):
+            import emd
+            x = P.synth(case['spec'])[:, 0]
+            if emd.sift.interp_envelope(x, mode='upper') is None:
+                t.append('no-upper-envelope')
+            if emd.sift.interp_envelope(x, mode='combined', interp_method='pchip') is None:
+                t.append('no-combined-envelope')
+        return t
 
 
 STREAMS = [Wrap(), Conversions(), Roundtrip(), ComplexPhase(), FreqTransform(), Sinusoid(), Quadrature(), Normalise(), UnwrapModel(), Assumptions()]
